@@ -43,6 +43,7 @@ type Sub struct {
 type History struct {
 	Forbidden []int
 	Subs      []Sub
+	X         []string // extra "x=..." tokens (scenario parameters of the property that uses the history)
 }
 
 const genesisID = 1
@@ -62,6 +63,10 @@ func (h *History) Line() string {
 		}
 		fmt.Fprintf(&sb, "%d", f)
 	}
+	for _, x := range h.X {
+		sb.WriteString(";x=")
+		sb.WriteString(x)
+	}
 	for _, s := range h.Subs {
 		sb.WriteByte(';')
 		sb.WriteString(s.String())
@@ -75,6 +80,10 @@ func ParseHistory(line string) (*History, error) {
 	for _, tok := range strings.Split(line, ";") {
 		tok = strings.TrimSpace(tok)
 		if tok == "" || strings.HasPrefix(tok, "g=") {
+			continue
+		}
+		if strings.HasPrefix(tok, "x=") {
+			h.X = append(h.X, tok[2:])
 			continue
 		}
 		if strings.HasPrefix(tok, "f=") {
